@@ -42,6 +42,19 @@ pub struct ReaderPlan {
     pub cancel: Option<(usize, u64)>,
 }
 
+/// a request to one of the other REST handlers, which only read the table:
+/// whatever they do, the table and /all must not notice
+#[derive(Clone, Debug, Serialize, Deserialize)]
+pub struct OtherReq {
+    pub at_ns: u64,
+    /// 0 = `/` (list of addresses), 1 = /sensors, 2 = /track?icao24=, 3 = /track?icao24=&since=
+    pub kind: u8,
+    /// the aircraft asked for is the one of this record
+    pub rec: usize,
+    /// the client disconnects this long after the request was issued
+    pub cancel_after: Option<u64>,
+}
+
 #[derive(Clone, Debug, Serialize, Deserialize)]
 pub struct HolderPlan {
     /// (instant, duration) during which the mutex is held
@@ -53,6 +66,8 @@ pub struct C12Plan {
     pub records: Vec<Rec>,
     pub cap: usize,
     pub readers: Vec<ReaderPlan>,
+    #[serde(default)]
+    pub others: Vec<OtherReq>,
     pub holders: Vec<HolderPlan>,
     pub reference: Option<(f64, f64)>,
     pub yields: bool,
@@ -250,6 +265,20 @@ impl Scenario for C12 {
             };
             readers.push(ReaderPlan { at_ns, cancel });
         }
+        let mut others = Vec::new();
+        if rng.chance(0.6) && !records.is_empty() {
+            for _ in 0..rng.usize(1, 10) {
+                // most requests go off while that aircraft is being heard
+                let rec = rng.usize(0, records.len() - 1);
+                let at_ns = if rng.chance(0.7) { records[rec].at_ns.saturating_sub(rng.below(3_000_000)) + rng.below(3_000_000) } else { rng.below(span) };
+                others.push(OtherReq {
+                    at_ns,
+                    kind: *rng.pick(&[0u8, 1, 2, 2, 3, 3]),
+                    rec,
+                    cancel_after: if rng.chance(0.2) { Some(*rng.pick(&[0u64, 1_000, 1_000_000, 50_000_000])) } else { None },
+                });
+            }
+        }
         let mut holders = Vec::new();
         for _ in 0..rng.usize(0, 2) {
             let k = rng.usize(1, 8);
@@ -263,6 +292,7 @@ impl Scenario for C12 {
             records,
             cap: *rng.pick(&[1usize, 1, 2, 8, 101, 201]),
             readers,
+            others,
             holders,
             reference: if rng.chance(0.5) { Some((rng.frange(-60., 60.), rng.frange(-170., 170.))) } else { None },
             yields: rng.chance(0.8),
@@ -279,6 +309,18 @@ impl Scenario for C12 {
             let mut q = p.clone();
             q.holders.clear();
             out.push(q);
+        }
+        if !p.others.is_empty() {
+            let mut q = p.clone();
+            q.others.clear();
+            out.push(q);
+            if p.others.len() > 1 {
+                for i in 0..p.others.len() {
+                    let mut q = p.clone();
+                    q.others.remove(i);
+                    out.push(q);
+                }
+            }
         }
         if !p.readers.is_empty() {
             let mut q = p.clone();
@@ -787,6 +829,35 @@ pub fn execute(plan: &C12Plan) -> Outcome<C12Plan> {
             }
         }
     }
+    // requests to the other handlers (/, /sensors, /track): they only read
+    let mut other_reqs = 0u64;
+    for (oi, o) in plan.others.iter().enumerate() {
+        // the address the client asks for: the one of a record of the history
+        let icao: Option<String> = plan.records.get(o.rec).and_then(|r| {
+            let bytes = world::unhex(&r.frame);
+            Message::try_from(bytes.as_slice()).ok().and_then(|m| serde_json::to_value(&m).ok()).and_then(|v| v["icao24"].as_str().map(|s| s.to_string()))
+        });
+        let since = plan.records.get(o.rec).map(|r| epoch0 + r.ts_ms as f64 * 1e-3 - 5.0);
+        let (kind, at) = (o.kind, o.at_ns);
+        let app = app.clone();
+        other_reqs += 1;
+        let t = sim.spawn("GET / | /sensors | /track (real handlers)", async move {
+            exec::sleep_until_ns(at).await;
+            let reply = match (kind, icao) {
+                (0, _) | (_, None) => crate::web::icao24(&app).await.unwrap().into_response(),
+                (1, _) => crate::web::sensors(&app).await.unwrap().into_response(),
+                (k, Some(icao)) => {
+                    let q: crate::web::TrackQuery = serde_json::from_value(serde_json::json!({"icao24": icao, "since": if k == 2 { Value::Null } else { serde_json::json!(since) }})).expect("track query");
+                    crate::web::track(&app, q).await.unwrap().into_response()
+                }
+            };
+            let bytes = warp::hyper::body::to_bytes(reply.into_body()).await.unwrap();
+            exec::log_u64(0x0B70_0000 | bytes.len() as u64 & 0xFFFF);
+        });
+        if let Some(after) = o.cancel_after {
+            cancels.push((t, at + after, 1000 + oi));
+        }
+    }
     // lock-holders (stand-in for the TUI task, which holds the mutex while it draws)
     let holding = Rc::new(RefCell::new(0u32));
     let mut holds_fired = 0u64;
@@ -918,6 +989,7 @@ pub fn execute(plan: &C12Plan) -> Outcome<C12Plan> {
     out.count("lock_hold", holds_fired);
     out.count("long_lock_hold", long_holds);
     out.count("reader_cancelled", cancelled);
+    out.count("other_rest_requests", other_reqs);
     out.count("backpressure", *bp.borrow());
     out.count("multi_ready_steps", multi);
     out.count("observation_between_update_and_history", sh.obs_while_waiting);
